@@ -22,7 +22,7 @@ from ..gen.objects import ObjGen
 from ..oracles import paths as pathor
 from ..oracles import validator
 from ..spec import model as M
-from .c02 import TYPES, cls_for
+from .c02 import BASES, TYPES, cls_for, make_base
 
 ID = "C13"
 LEVEL = "exploration"
@@ -150,10 +150,10 @@ def wl_sequence(ctx, rng, i):
     import stix2.markings as mk
     import stix2.versioning
     from stix2.canonicalization.Canonicalize import canonicalize
-    ver, t = TYPES[i % len(TYPES)]
-    rnd = i // len(TYPES)
+    ver, bname = BASES[i % len(BASES)]
+    rnd = i // len(BASES)
     g = ObjGen(rng, ver, hostile=(rnd % 3 == 0), ts_max_digits=6, openvocab_custom=False, year_range=(2001, 2030))
-    o = g.make(t, "max" if rnd % 2 == 0 else "random")
+    t, o = make_base(g, ver, bname, "max" if rnd % 2 == 0 else "random")
     if validator.validate(o, ver):
         ctx.skip("generator error")
         return
@@ -308,7 +308,7 @@ def wl_sequence(ctx, rng, i):
 
 
 WORKLOADS = [
-    Workload("sequence", wl_sequence, quick=lambda: len(TYPES) * 4, thorough=lambda: len(TYPES) * 60),
+    Workload("sequence", wl_sequence, quick=lambda: len(BASES) * 3, thorough=lambda: len(BASES) * 50),
 ]
 
 
